@@ -69,3 +69,24 @@ claim(
     "The property proper - non-overlap, coverage and label monotonicity over chains of three and more events - depends on how these local steps compose while the loop mutates neighbours; no static argument in reach decides it and it is NOT claimed.",
     "points-to purity analysis; loop-body path enumeration with constant propagation of affine forms and pairwise infeasible-path pruning",
 )
+claim(
+    "C15",
+    "other",
+    "Decided for all inputs: neither input list nor any input event is modified (points-to analysis); list one comes back intact (no write targets anything flowing from it, each index advance is paired with exactly one append on every loop-body path, the tail is appended); _split_event partitions an event exactly at a strictly interior cut into two deep copies (affine post-conditions on its only splitting path); list two is cut at the end / start of the current list-one event and only split pieces or untouched elements enter the result.",
+    "Non-overlap and coverage of the final result for every interleaving is a loop invariant over a list that grows while it is swept; it is NOT decided.",
+    "points-to purity / write-set analysis; path enumeration with constant propagation of affine forms; pairing rule on loop-body paths",
+)
+claim(
+    "C16",
+    "other",
+    "Decided for all inputs: none of the eight functions modifies its input (points-to analysis); merge_events_by_keys' group key is injective in (presence, value) per key (positional on every path of the key loop, or tagged); each event's duration is added exactly once to exactly one group / chunk and there is one output per group; sort / limit / filter / sum have the stated shapes with complementary filter polarity.",
+    "Exactness of float sums and behaviour on unhashable values are not decided.",
+    "points-to purity analysis; loop-body path enumeration for key injectivity; structural pairing rules",
+)
+claim(
+    "C19",
+    "proof",
+    "Write-sets of categorize, tag, split_url_events and simplify_string computed by the points-to/effect analysis through every inlined callee: below the events parameter (or its deep copy) only event.data[<own keys>] is assigned - never timestamp, duration, id, another data key, a del or a list mutation - and the result is the same events in the same order. Category/tag choice (left fold, non-strict depth comparison so the later rule wins ties, matches in rule order) and Rule.match (None for empty regex, selected keys or all values, str values only, found-anywhere call, IGNORECASE iff asked) are decided against their specified shape.",
+    "Regex semantics and URL parsing results are trusted.",
+    "access-path write-set (effect) analysis with context-sensitive inlining; affine canonicalisation of the tie-break literal; shape matching of Rule",
+)
